@@ -47,4 +47,20 @@ theorem new_baseMag (env : ι → UnitInfo ℝ) (hpos : EnvPos env) (m : Mag ℝ
     cases m.error <;> simp [mul_assoc]
   · rfl
 
+theorem rebaseStep_pos (env : ι → UnitInfo ℝ) (hpos : EnvPos env)
+    (acc : List (List Bool × ι × Frac) × ℝ) (p : ι × Frac) (h : 0 < acc.2) :
+    0 < (rebaseStep env acc p).2 := by
+  simp only [rebaseStep]
+  cases List.find? (fun t => decide (t.1 = dimKey ((env p.1).dims.scale ⟨1, 1⟩))) acc.1 with
+  | some t0 => exact mul_pos h (Real.rpow_pos_of_pos (div_pos (hpos _) (hpos _)) _)
+  | none => exact h
+
+/-- the conversion factor accumulated by `Quantity.rebase` is positive -/
+theorem rebase_factor_pos (env : ι → UnitInfo ℝ) (hpos : EnvPos env) (b : BU ι)
+    (acc : List (List Bool × ι × Frac) × ℝ) (h : 0 < acc.2) :
+    0 < (b.foldl (rebaseStep env) acc).2 := by
+  induction b generalizing acc with
+  | nil => exact h
+  | cons p t ih => exact ih _ (rebaseStep_pos env hpos acc p h)
+
 end SciVerif.C06
